@@ -53,6 +53,7 @@ type ProxyParams struct {
 	Acts         *RouteActs   // generated route actions (C17)
 	TimeoutProbe bool         // C17: requests whose upstream never answers measure the effective timeout
 	NoRefuse     bool         // every host accepts connections
+	MutFilter    bool         // C01: filter f0 modifies the requests that ask for it (header "x-fm")
 	UpIdleS      int          // cluster idle_timeout in seconds (0 = not configured): MOSN closes idle upstream connections itself
 	ShutdownMs   int          // C11: graceful stop is requested at this instant (0 = never)
 	DrainMs      int          // C11: drain timeout
@@ -140,12 +141,21 @@ func DrawProxyParams(ch *sim.Choices, prop string) ProxyParams {
 		p.LB = pickFrom(ch, "params", "lb17", []string{"LB_REQUEST_ROUNDROBIN", "LB_ROUNDROBIN", "LB_RANDOM"})
 		p.NHosts = 2 + ch.Pick("params", "nhosts17", 2)
 	}
+	if prop == "C01" && (p.Proto == "bolt" || p.Proto == "boltv2") && !p.Auto && ch.Chance("params", "mutfilter", 1, 4) {
+		// a stream filter that modifies requests and responses (C01: "a frame whose headers or body were
+		// modified re-encodes to a frame that decodes to exactly the modified content")
+		p.Filters = []FilterSpec{{Name: "f0", Phase: 0, Send: true}}
+		p.MutFilter = true
+	}
 	if prop == "C14" || (prop == "C03" && ch.Chance("params", "filters", 1, 5)) {
 		// f0 is a plain tagger in front (it lets the oracle attribute send-filter calls)
 		p.Filters = []FilterSpec{{Name: "f0", Phase: 0, Send: ch.Bool("params", "f0send")}}
 		for i, n := 1, ch.Pick("params", "nfilters", 6); i <= n; i++ {
 			p.Filters = append(p.Filters, FilterSpec{Name: fmt.Sprintf("f%d", i), Phase: ch.Pick("params", "fphase", 4) - 1, Send: ch.Bool("params", "fsend")})
 		}
+	}
+	if _, _, cross := crossProto(p.Proto); cross {
+		p.Faults, p.NoRefuse, p.Auto, p.Protos = false, true, false, []string{p.Proto}
 	}
 	if p.Proto == "http2" && (prop == "C01" || prop == "C07") {
 		p.Faults, p.NoRefuse = false, true // the HTTP/2 reference peers script no upstream faults
@@ -230,10 +240,12 @@ func protoChoices(prop string) []string {
 	case "C11":
 		return []string{"bolt", "http1", "boltpp", "boltv2", "http2"}
 	case "C01":
-		return []string{"bolt", "http1", "boltpp", "boltv2", "dubbo", "http2", "tars", "dubbo-thrift", "tcp"}
+		return []string{"bolt", "http1", "boltpp", "boltv2", "dubbo", "http2", "tars", "dubbo-thrift", "tcp", "h1h2"}
 	case "C08", "C07":
 		return []string{"bolt", "http1", "boltpp", "boltv2", "dubbo", "http2", "tars", "dubbo-thrift"}
-	case "C02", "C03", "C10":
+	case "C03", "C10":
+		return []string{"bolt", "http1", "boltpp", "boltv2", "dubbo", "http2"}
+	case "C02":
 		return []string{"bolt", "http1", "boltpp", "boltv2", "dubbo"}
 	}
 	return []string{"bolt", "http1", "boltpp", "boltv2"}
@@ -259,6 +271,17 @@ func poolName(proto string) string {
 }
 
 func isX(proto string) bool { return proto != "http1" && proto != "http2" }
+
+// crossProto: listener and cluster speak different HTTP versions ("h1h2": HTTP/1 downstream, HTTP/2 upstream).
+func crossProto(proto string) (down, up string, ok bool) {
+	switch proto {
+	case "h1h2":
+		return "http1", "http2", true
+	case "h2h1":
+		return "http2", "http1", true
+	}
+	return proto, proto, false
+}
 
 func hostAddr(i int) string { return fmt.Sprintf("10.1.0.%d:9000", i+1) }
 
@@ -316,6 +339,11 @@ func (w *Proxy) buildConfig() []byte {
 	if p.Proto == "http2" {
 		pcfg = J{"downstream_protocol": "Http2", "upstream_protocol": "Http2", "router_config_name": "r0"}
 		match = J{"prefix": "/"}
+	}
+	if down, up, cross := crossProto(p.Proto); cross {
+		pcfg = J{"downstream_protocol": poolName(down), "upstream_protocol": poolName(up), "router_config_name": "r0"}
+		match = J{"prefix": "/"}
+		route["upstream_protocol"] = poolName(up) // (the protocol towards the cluster is a property of the route)
 	}
 	if p.Auto {
 		// every request carries a "service" header, whatever its protocol
@@ -479,9 +507,9 @@ func (w *Proxy) Setup() error {
 	time.Sleep(time.Duration(1+ch.Pick("params", "clockskew", 1000)) * time.Microsecond)
 	RegisterScriptedFilter()
 	FLog = &filterLog{}
-	if p.Proto == "http2" {
+	if _, up, _ := crossProto(p.Proto); up == "http2" {
 		w.h2UpOpts = drawH2Opts(ch, "h2up")
-		if p.ShutdownMs > 0 {
+		if p.ShutdownMs > 0 || p.Faults {
 			w.h2UpOpts = fastH2Opts(ch, "h2up")
 		}
 	}
@@ -498,7 +526,7 @@ func (w *Proxy) Setup() error {
 		for _, a := range w.hostAddrs {
 			if ch.Chance("params", "hostmode", 1, 6) {
 				w.hostMode[a] = 1 + ch.Pick("params", "hostmodekind", 2)
-				if w.hostMode[a] == 2 && p.MaxConns > 1 {
+				if w.hostMode[a] == 2 && (p.MaxConns > 1 || p.Proto == "http2") {
 					// the multiplex pool dials under its lock; a second initialiser waiting for
 					// that lock is not durably blocked and fake time could not advance
 					w.hostMode[a] = 1
@@ -679,6 +707,9 @@ func (w *Proxy) final() {
 
 func (w *Proxy) probeSize() int {
 	p := w.P
+	if p.Proto != "http1" && peers.CodecFor(p.Proto) == nil {
+		return 0 // the probe speaks HTTP/1 or an xprotocol
+	}
 	for _, m := range w.hostMode {
 		if m != 0 {
 			return 0 // a refusing host would fail probe requests for reasons unrelated to capacity
@@ -768,7 +799,15 @@ func (w *Proxy) finish() {
 		return
 	}
 	if w.P.Proto == "http2" {
+		if w.P.Faults {
+			w.checkC03() // scripted upstream failures: the fidelity oracle of C18 does not apply, the outcome oracle does
+			return
+		}
 		w.checkC18()
+		return
+	}
+	if _, _, cross := crossProto(w.P.Proto); cross {
+		w.checkCross()
 		return
 	}
 	w.checkAll()
@@ -802,7 +841,11 @@ var XSites = []string{"x:proxy.timer.global.cas", "x:proxy.timer.pertry.cas", "x
 func (w *Proxy) setupClients() {
 	reqIdx := 0
 	for ci := 0; ci < w.P.NConns; ci++ {
-		if proto := w.protoOfConn(ci); proto == "http1" {
+		proto := w.protoOfConn(ci)
+		if down, _, cross := crossProto(proto); cross {
+			proto = down
+		}
+		if proto == "http1" {
 			w.setupH1Client(ci, &reqIdx)
 		} else if proto == "http2" {
 			w.setupH2Client(ci, &reqIdx)
@@ -843,6 +886,10 @@ func (w *Proxy) setupXClient(ci int, proto string, reqIdxP *int) {
 				body = append(body, byte(len(body)))
 			}
 			f := &peers.XFrame{IsReq: true, Oneway: r.Oneway, ID: r.ID, Class: "com.verif.Req", Body: body}
+			if (proto == "bolt" || proto == "boltv2") && w.Prop == "C01" && ch.Chance("work", "classlen", 1, 4) {
+				// class names at the byte-width boundaries of the class length field
+				f.Class = strings.Repeat("C", pickFrom(ch, "work", "classlenv", []int{0, 1, 255, 256, 1000, 65535}))
+			}
 			if p.ProtoTimeout {
 				f.Timeout = int32(pickFrom(ch, "work", "ptimeout", []int{0, 30, 300, 3000}))
 				if proto == "dubbo" {
@@ -862,8 +909,31 @@ func (w *Proxy) setupXClient(ci int, proto string, reqIdxP *int) {
 			if fv := w.drawVerdicts(r); fv != "" {
 				f.Headers = append(f.Headers, peers.KV{K: "x-fv", V: fv})
 			}
+			if p.MutFilter && ch.Bool("work", "mutate") {
+				fm := pickFrom(ch, "work", "mutkind", []string{"hdr", "hdr+body", "hdr+resp", "hdr+body+resp"})
+				f.Headers = append(f.Headers, peers.KV{K: "x-fm", V: fm})
+				r.Extra["mutate"] = fm
+			}
 			for x := ch.Pick("work", "nhdr", 4); x > 0; x-- {
 				f.Headers = append(f.Headers, peers.KV{K: fmt.Sprintf("k%d", x), V: hex.EncodeToString(ch.Bytes("work", ch.Pick("work", "hl", 20)))})
+			}
+			if w.Prop == "C01" && ch.Chance("work", "manyhdr", 1, 8) {
+				for x, n := 0, pickFrom(ch, "work", "manyhdrn", []int{50, 200, 1000}); x < n; x++ {
+					f.Headers = append(f.Headers, peers.KV{K: fmt.Sprintf("m%d", x), V: fmt.Sprintf("v%d", x%7)})
+				}
+			}
+			if r.Extra["mutate"] != "" && ch.Chance("work", "hdrboundary", 1, 5) {
+				// a header block right below the 16-bit limit of its length field: the filter's additional
+				// header (18 bytes encoded) may push the re-encoded block over it
+				cur := 0
+				for _, kv := range f.Headers {
+					cur += 8 + len(kv.K) + len(kv.V)
+				}
+				target := 65535 - pickFrom(ch, "work", "hdrslack", []int{0, 1, 17, 18, 19, 100})
+				if pad := target - cur - 8 - len("big"); pad > 0 {
+					f.Headers = append(f.Headers, peers.KV{K: "big", V: strings.Repeat("h", pad)})
+					r.Extra["hdr_block"] = fmt.Sprint(target)
+				}
 			}
 			r.Frame = codec.Build(f)
 			if r.Extra == nil {
@@ -961,6 +1031,10 @@ func (w *Proxy) setupH1Client(ci int, reqIdxP *int) {
 				r.Target = m.Target
 			}
 			r.Extra["svc"] = svc
+			if _, _, cross := crossProto(p.Proto); cross {
+				r.Extra["resp_status"] = fmt.Sprint(pickFrom(ch, "work", "xstatus", []int{200, 200, 204, 404, 500, 503}))
+				r.Extra["resp_len"] = fmt.Sprint(pickFrom(ch, "work", "xresplen", []int{0, 1, 100, 20000}))
+			}
 			m.Headers = []peers.KV{{K: "Host", V: "svc.test"}, {K: "X-Tok", V: tok}, {K: "service", V: svc}, {K: "User-Agent", V: "verif/1"}, {K: "Content-Type", V: "application/x-verif"}}
 			w.c17RequestExtras(r, &m.Headers, nil)
 			if fv := w.drawVerdicts(r); fv != "" {
@@ -1018,7 +1092,7 @@ func (a *autoUp) OnData(c *sim.Conn, b []byte) {
 		w := a.w
 		w.dialMu.Lock()
 		switch {
-		case b[0] == 'P' && w.P.Proto == "http2":
+		case b[0] == 'P' && (w.P.Proto == "http2" || w.P.Proto == "h1h2"):
 			u := w.newH2Upstream(a.host)
 			u.Start(c)
 			a.impl = u
